@@ -69,8 +69,10 @@ theorem wakeStep_error (s : St) (w : Wake) :
       · simp [caught_error]
       · split
         · simp [caught_error]
-        · simp only [leaveTry_error, caught_error, abort_error]
-          cases s.error <;> simp [firstOf]
+        · split
+          · simp only [leaveTry_error, caught_error, abort_error]
+            cases s.error <;> simp [firstOf]
+          · simp [caught_error]
         · simp [firstOf_nil]
     · -- sleep0
       split <;> simp [firstOf_nil]
@@ -103,9 +105,17 @@ theorem step_error (s : St) (op : Op) :
     · simp [firstOf_nil]
     · cases he : s.error with
       | some e => simp [firstOf]
-      | none => cases initErr <;> simp [firstOf, caught_error]
+      | none =>
+        cases initErr with
+        | some id => simp [firstOf, caught_error]
+        | none => simp only []; split <;> simp [firstOf, caught_error, he]
   | abortCall e => simp [step, abort_error]
-  | handlerErr id => simp only [step]; split <;> simp [abort_error, firstOf_nil]
+  | handlerErr id f =>
+    simp only [step]
+    split
+    · split <;> simp [abort_error, firstOf_nil]
+    · simp [firstOf_nil]
+  | earlyInitFail id => simp only [step]; split <;> simp [firstOf_nil]
   | paramErr => simp [step, firstOf_nil]
   | unknownEvt => simp [step, firstOf_nil]
   | nestedUnknown c =>
